@@ -1,9 +1,10 @@
 (* C19: HOW a configuration value is rejected, and the complete outcome of stl_reader.program_start_tc.
    Every decoder of Model/Cli.v that raises raises ValueError (its own "Invalid ... value. Expect: ..." error) — for ALL
-   JSON values, inside or outside README's table — except on the (key, value) pairs of Spec/CliSpec.v trigger_escape
-   (scc_reader.text_align on a non-string, general.document_lang / log_level on values of the wrong type), where no
-   decoder looks at the type first.  Since stl_reader.program_start_tc and font_stack reject non-strings by ValueError,
-   every module section but scc_reader fails by ValueError only, whatever it holds. *)
+   JSON values of all 19 keys, inside or outside README's table; every module section fails by ValueError or not at all,
+   whatever it holds; and so does read_config_from_json on any JSON value at all (a configuration or a section that is
+   not an object included).  (Until the repairs of stl_reader.program_start_tc / font_stack, scc_reader.text_align,
+   general.document_lang / log_level and read_config_from_json, values of the wrong JSON type escaped as
+   AttributeError / TypeError.) *)
 From Coq Require Import String.
 From TT Require Import Base.Prelude Base.CliTypes Gen.CliUnicode Model.Cli Spec.CliSpec Proofs.C19.Accept Proofs.C19.AcceptAll.
 
@@ -55,29 +56,31 @@ Proof.
 Qed.
 Lemma ov_dec_color v : only_value (dec_color v).
 Proof. destruct v; try apply ov_value; try apply ov_ok. cbn [dec_color]. apply ov_bind; [apply ov_parse_color|]. intro. apply ov_ok. Qed.
-Lemma ov_scc_str s : only_value (dec_scc_text_align (JStr s)).
-Proof. cbn [dec_scc_text_align]. repeat apply ov_if; first [apply ov_ok|apply ov_value]. Qed.
+Lemma ov_dec_scc_text_align v : only_value (dec_scc_text_align v).
+Proof. destruct v; try apply ov_value. cbn [dec_scc_text_align]. repeat apply ov_if; first [apply ov_ok|apply ov_value]. Qed.
+Lemma ov_dec_str_or_null v : only_value (dec_str_or_null v).
+Proof. destruct v; first [apply ov_ok|apply ov_value]. Qed.
 
 (* ------------------------------------------------------------------ one key at a time, all JSON values *)
-Theorem decode_raises_value_error k v e : trigger_escape k v = false -> decode k v = Raise e -> e = EValue.
+Theorem decode_raises_value_error k v e : decode k v = Raise e -> e = EValue.
 Proof.
-  intros Tr H. revert e H. change (only_value (decode k v)).
+  revert e. change (only_value (decode k v)).
   destruct k; unfold decode;
     try (apply ov_bind; [first [apply ov_dec_bool|apply ov_dec_time_format|apply ov_dec_fps|apply ov_dec_start_tc|apply ov_dec_font_stack
-                                |apply ov_dec_max_row_count|apply ov_dec_safe_area|apply ov_dec_color]|intro; apply ov_ok]).
-  - (* log_level *) destruct v; try discriminate Tr; cbn [is_null check_level bind]; try apply ov_ok.
+                                |apply ov_dec_max_row_count|apply ov_dec_safe_area|apply ov_dec_color|apply ov_dec_scc_text_align]|intro; apply ov_ok]).
+  - (* log_level: a str that is not the name of a level is rejected by logging, with a ValueError too *)
+    destruct v; cbn [dec_str_or_null bind is_null check_level]; try apply ov_ok; try apply ov_value.
     destruct (assocT s log_levels); cbn [bind]; [apply ov_ok|apply ov_value].
-  - (* document_lang *) destruct v; try discriminate Tr; cbn; apply ov_ok.
-  - (* scc_reader.text_align *) destruct v; try discriminate Tr. apply ov_bind; [apply ov_scc_str|intro; apply ov_ok].
+  - (* document_lang *) destruct v; cbn [dec_str_or_null bind is_null check_lang]; try apply ov_ok; apply ov_value.
 Qed.
 (* outside the triggers an undocumented value of the table is rejected, and by ValueError *)
 Theorem config_rejects_value_error k v :
-  in_table k v = true -> trigger k v = false -> trigger_escape k v = false -> documented k v = false -> decode k v = Raise EValue.
+  in_table k v = true -> trigger k v = false -> documented k v = false -> decode k v = Raise EValue.
 Proof.
-  intros I Tr Es D. pose proof (proj1 (config_exact k v I Tr)) as A. unfold agrees, accepts in A.
+  intros I Tr D. pose proof (proj1 (config_exact k v I Tr)) as A. unfold agrees, accepts in A.
   destruct (decode k v) as [c|e] eqn:E.
   - destruct A as [A _]. rewrite D in A. discriminate (A eq_refl).
-  - rewrite (decode_raises_value_error k v e Es E). reflexivity.
+  - rewrite (decode_raises_value_error k v e E). reflexivity.
 Qed.
 
 (* ------------------------------------------------------------------ whole sections *)
@@ -86,27 +89,27 @@ Proof. intro H. unfold field. destruct (obj_get (T name) d); [apply H|apply ov_o
 Ltac ov_section :=
   repeat (apply ov_bind; [apply ov_field; first [exact ov_dec_bool|exact ov_dec_time_format|exact ov_dec_fps|exact ov_dec_start_tc
                                                  |exact ov_dec_font_stack|exact ov_dec_max_row_count|exact ov_dec_safe_area|exact ov_dec_color
-                                                 |intro; apply ov_ok]|intro]); try apply ov_ok.
+                                                 |exact ov_dec_scc_text_align|exact ov_dec_str_or_null]|intro]); try apply ov_ok.
 Theorem sections_raise_value_error d :
-  only_value (parse_general d) /\ only_value (parse_imsc d) /\ only_value (parse_stl d) /\ only_value (parse_srt d) /\
-  only_value (parse_vtt d) /\ only_value (parse_lcd d).
+  only_value (parse_general d) /\ only_value (parse_imsc d) /\ only_value (parse_scc d) /\ only_value (parse_stl d) /\
+  only_value (parse_srt d) /\ only_value (parse_vtt d) /\ only_value (parse_lcd d).
 Proof.
   repeat split.
   - unfold parse_general. ov_section.
   - unfold parse_imsc. ov_section.
+  - unfold parse_scc. apply ov_field. exact ov_dec_scc_text_align.
   - unfold parse_stl. ov_section.
   - unfold parse_srt. apply ov_field. exact ov_dec_bool.
   - unfold parse_vtt. ov_section.
   - unfold parse_lcd. ov_section.
 Qed.
-(* scc_reader: the one section that can still fail otherwise, and only on a text_align that is not a string *)
-Theorem scc_section_raises d e :
-  parse_scc d = Raise e ->
-  e = EValue \/ (e = EAttribute /\ exists v, obj_get (T "text_align") d = Some v /\ forall s, v <> JStr s).
+(* tt.py read_config_from_json, on ANY configuration value: a configuration or a section that is not a JSON object included *)
+Theorem read_config_raises_value_error {A} name (parse : list (text * json) -> res A) data :
+  (forall d, only_value (parse d)) -> only_value (read_config name parse data).
 Proof.
-  unfold parse_scc, field. destruct (obj_get (T "text_align") d) as [v|]; [|discriminate].
-  destruct v; try (intro H; left; exact (ov_scc_str s e H));
-    intro H; cbn in H; inversion H; right; (split; [reflexivity|]); eexists; (split; [reflexivity|]); intros s' X; discriminate X.
+  intro P. unfold read_config. destruct data as [[]|]; try apply ov_ok; try apply ov_value.
+  destruct (obj_get (T name) l) as [[]|]; try apply ov_ok; try apply ov_value.
+  apply ov_bind; [apply P|intro; apply ov_ok].
 Qed.
 
 (* ------------------------------------------------------------------ stl_reader.program_start_tc, completely *)
